@@ -314,6 +314,8 @@ func findServerLoop(l *core.Ledger, r *rt, rule string) *serverLoop {
 				var body *ssa.Function
 				if mc, ok := x.Call.Value.(*ssa.MakeClosure); ok {
 					body = mc.Fn.(*ssa.Function)
+				} else if sc := x.Call.StaticCallee(); sc != nil && inRepo(sc) && len(sc.Blocks) > 0 {
+					body = sc // a literal without free variables, or a named function
 				}
 				if body != nil {
 					sl.pump = body
